@@ -340,6 +340,10 @@ impl World {
                 "skip-without-first"
             } else if err_text.contains("AND") && Self::filter_and_json_filter(&text) {
                 "filter-then-json-filter"
+            } else if Self::has_keyword_identifier(&text) && Self::engine_names_identifier(&err_text, &text) {
+                // the engine points at a token that the request uses as an alias / identifier: the keyword finding,
+                // whatever else the request selects
+                "sql-keyword-identifier"
             } else if selects_json_default {
                 "json-default-unclosed-ifnull"
             } else if Self::has_keyword_identifier(&text) {
@@ -401,6 +405,18 @@ impl World {
     }
 
     /// some identifier the request uses as an alias / name is an SQL keyword or starts with an ASCII digit
+    /// the engine's message is `near "<token>": syntax error` and <token> is one of the identifiers of the request
+    fn engine_names_identifier(err_text: &str, text: &str) -> bool {
+        let Some(p) = err_text.find("near \"") else { return false };
+        let rest = &err_text[p + 6..];
+        let Some(q) = rest.find('"') else { return false };
+        let tok = rest[..q].to_lowercase();
+        !tok.is_empty()
+            && text
+                .split(|c: char| !(c.is_alphanumeric() || c == '_'))
+                .any(|t| t.to_lowercase() == tok)
+    }
+
     fn has_keyword_identifier(text: &str) -> bool {
         const KW: [&str; 24] = ["group", "order", "select", "from", "where", "table", "index", "join", "limit", "values", "set",
             "union", "in", "is", "not", "null", "on", "or", "and", "as", "by", "to", "case", "when"];
